@@ -242,7 +242,7 @@ Theorem C11_polar_right_generated : forall M U S Vh : arr NumR,
   eq2b (mat3 M) (mm (mat3 U) (mm (diagm S) (mat3 Vh))) ->
   match k_polar_decompose_right M U S Vh with
   | Ok (R, Ur) =>
-      eq2b (mm (mat3 R) (mat3 Ur)) (mat3 M) /\ orth (mat3 R) /\
+      eq2b (mm (mat3 R) (mat3 Ur)) (mat3 M) /\ (orth (mat3 R) /\ orth (tr3 (mat3 R))) /\
       sym3 (mat3 Ur) /\ forall x, 0 <= quad (mat3 Ur) x
   | Err e => e = ValueError /\ det3 M = 0
   end.
